@@ -60,7 +60,14 @@ def h_make_grid(ctx):
         coords = (ee, nn) + tuple(extras)
     else:
         coords = (e, n) + tuple(extras)
-    data_arg = tuple(datas) if nv != 1 else datas[0]
+    if cfg.get("fortran"):
+        # same logical contents, column-major memory
+        datas_in = [np.asfortranarray(d) for d in datas]
+        extras_in = [np.asfortranarray(x) for x in extras]
+        coords = coords[:2] + tuple(extras_in)
+    else:
+        datas_in = datas
+    data_arg = tuple(datas_in) if nv != 1 else datas_in[0]
     names_arg = names if nv != 1 else names[0]
     kw = {"extra_coords_names": (xnames if nx != 1 else xnames[0])} if nx else {}
     ds = vu.make_xarray_grid(coords, data_arg if nv else None, names_arg if nv else None, dims=dims, **kw)
@@ -98,7 +105,17 @@ def h_table_inputs(ctx):
     d1 = ctx.reals("d1", shape)
     x0 = ctx.reals("x0", shape)
     kind = cfg["kind"]
-    if kind == "dataset_reordered":
+    if kind == "dataset_transposed":
+        # stored as (easting, northing) and lazily transposed: memory order differs from the logical row-major order
+        stored = xr.Dataset({"alpha": ((dims[1], dims[0]), np.ascontiguousarray(d0.T)), "beta": ((dims[1], dims[0]), np.ascontiguousarray(d1.T))}, coords={dims[0]: n, dims[1]: e, "up": ((dims[1], dims[0]), np.ascontiguousarray(x0.T))})
+        grid = stored.transpose(dims[0], dims[1])
+        table = vu.grid_to_table(grid)
+        _table_claims(ctx, table, dims, e, n, [d0, d1], ["alpha", "beta"], [x0], ["up"])
+    elif kind == "dataarray_fortran":
+        grid = xr.DataArray(np.asfortranarray(d0), coords={dims[0]: n, dims[1]: e}, dims=dims, name="alpha")
+        table = vu.grid_to_table(grid)
+        _table_claims(ctx, table, dims, e, n, [d0], ["alpha"], [], [])
+    elif kind == "dataset_reordered":
         coords = {"up": (dims, x0), dims[0]: n, dims[1]: e}
         grid = xr.Dataset({"alpha": (dims, d0), "beta": (dims, d1)}, coords=coords)
         table = vu.grid_to_table(grid)
@@ -201,19 +218,20 @@ def _cfg_make(tier, seed):
             {"shape": (2, 3), "nvars": 2, "nextra": 1, "coords2d": False},
             {"shape": (3, 2), "nvars": 1, "nextra": 0, "coords2d": True, "dims": ("lat", "lon")},
             {"shape": (1, 3), "nvars": 1, "nextra": 2, "coords2d": False},
+            {"shape": (2, 3), "nvars": 2, "nextra": 1, "coords2d": False, "fortran": True},
             {"shape": (3, 1), "nvars": 0, "nextra": 1, "coords2d": False},
         ]
     else:
         for sh in [(1, 1), (1, 3), (3, 1), (2, 3), (3, 2), (3, 3)]:
             for nv, nx in ((1, 0), (2, 1), (4, 3), (0, 1)):
                 for c2 in (False, True):
-                    out.append({"shape": sh, "nvars": nv, "nextra": nx, "coords2d": c2, "dims": ("lat", "lon") if c2 else ("northing", "easting")})
+                    out.append({"shape": sh, "nvars": nv, "nextra": nx, "coords2d": c2, "dims": ("lat", "lon") if c2 else ("northing", "easting"), "fortran": bool(nv == 2 and not c2)})
     return out
 
 
 def _cfg_table(tier, seed):
     shapes = [(2, 3)] if tier == "quick" else [(1, 3), (3, 1), (2, 3), (3, 2)]
-    return [{"shape": sh, "kind": k, "dims": d} for sh in shapes for k, d in (("dataset_reordered", ("northing", "easting")), ("dataarray_named", ("y", "x")), ("dataarray_unnamed", ("northing", "easting")))]
+    return [{"shape": sh, "kind": k, "dims": d} for sh in shapes for k, d in (("dataset_reordered", ("northing", "easting")), ("dataarray_named", ("y", "x")), ("dataarray_unnamed", ("northing", "easting")), ("dataset_transposed", ("northing", "easting")), ("dataarray_fortran", ("lat", "lon")))]
 
 
 HARNESSES = [
